@@ -163,6 +163,7 @@ type Exec struct {
 	boundMethods  map[string]*boundMethod
 	heapPureCache map[string]int
 	recDefining   map[string]bool
+	revealAll     map[string]bool // hidden spec functions revealed for the whole run of this executor (lemmas with `reveal`)
 	qvarCounter   int
 	linking       bool
 	skipped       map[string]bool
@@ -172,6 +173,8 @@ type Exec struct {
 	lastUnknownWrites bool
 	curCall           *ast.CallExpr
 	boundsOnly        bool
+	ghostTerms        map[string]ghostRec // store terms built by ghostWrite -> (base array, value written)
+	pfEvents          []string // the same for printf-style printers passed as function values named p (count("p:<substring of the format>"))
 	pEvents           []string // substrings of emitted text the contract under verification counts (count("P:<substring>"))
 	keySorts          map[string]string // array sorts of heap keys seen by the write-set scans
 	havocWhy          []string // why the whole mutable heap was forgotten (diagnostics of frame[*])
